@@ -147,9 +147,9 @@ template <class T> static void prop_fill(pbt::Ctx& c) {
 	PBT_SWEEP("fill/" #N, fill_##N, Dom<T>::size* nfc<T>(), 1, 1, "every value x every (first,count): " RULE_FILL);
 #define LARGE(T, N) \
 	static void rot_##N(pbt::Ctx& c) { prop_rot<T>(c); } \
-	PBT_RANDOM("rotate/" #N, rot_##N, 200000, 20000000, "structured/random value x uniform shift: " RULE_ROT); \
+	PBT_RANDOM("rotate/" #N, rot_##N, 200000, 5000000, "structured/random value x uniform shift: " RULE_ROT); \
 	static void fill_##N(pbt::Ctx& c) { prop_fill<T>(c); } \
-	PBT_RANDOM("fill/" #N, fill_##N, 500000, 40000000, "structured/random value x uniform valid (first,count): " RULE_FILL);
+	PBT_RANDOM("fill/" #N, fill_##N, 500000, 20000000, "structured/random value x uniform valid (first,count): " RULE_FILL);
 SMALL(glm::int8, int8)
 SMALL(glm::uint8, uint8)
 SMALL(glm::int16, int16)
